@@ -365,6 +365,12 @@ class SimRunner:
     The keys are the source SimRunner and the time shift, the values
     are the source and destination entity-attribute pairs.
     """
+    pulled_initial_data: Dict[Tuple[SimRunner, TieredInterval, Port, Port], Any]
+    """The initial data for the pulled inputs, for each combination of
+    source SimRunner, time shift, source entity-attribute pair and
+    destination entity-attribute pair (``None`` if the connection has
+    no initial data).
+    """
     output_to_push: Dict[Port, List[Tuple[SimRunner, TieredInterval, Port]]]
     """This lists those connections that use the timed_input_buffer.
     The keys are the entity-attribute pairs of this simulator with
@@ -455,6 +461,7 @@ class SimRunner:
         self.triggers = {}
         self.output_to_push = {}
         self.pulled_inputs = {}
+        self.pulled_initial_data = {}
 
         self.task = None  # type: ignore  # will be set in World.run
         self.newer_step = asyncio.Event()
